@@ -9,8 +9,8 @@ use tsmodel::paths::{join, normalize, resolve_spec, spec_syntax_errors};
 
 use crate::common::{arg_value, guarded, Report, Scratch, Slice};
 
-const DIRS: &[&str] = &["a", "b", "a.b", "x.ts", "ts", ".", ".."];
-const FILES: &[&str] = &["A.ts", "b.c.ts", "x.ts.ts", "ts.ts", "Ats"];
+const DIRS: &[&str] = &["a", "b", "a.b", "x.ts", "ts", ".hid", ".", ".."];
+const FILES: &[&str] = &["A.ts", "b.c.ts", "x.ts.ts", "ts.ts", ".h.ts", "Ats"];
 
 fn rel_paths(depth: usize) -> Vec<String> {
     let mut dirs: Vec<String> = vec![String::new()];
@@ -41,6 +41,7 @@ fn file_kind(p: &str) -> &'static str {
         "b.c.ts" => "dotted.ts",
         "x.ts.ts" => "double-ts-suffix",
         "ts.ts" => "stem-is-ts",
+        ".h.ts" => "dot-first",
         _ => "no-ts-extension",
     }
 }
@@ -53,7 +54,8 @@ pub fn run(args: &[String]) {
     let mut scratch = Scratch::new("paths");
     let root = scratch.fresh();
     let paths = rel_paths(depth);
-    let bases = ["./bindings", "rel/dir", "/abs/dir", "./x/../y", "/b", "bindings/", "/"];
+    let all_bases = ["./bindings", "/abs/dir", "./x/../y", "/b", "rel/dir", "bindings/", "/"];
+    let bases: &[&str] = if args.iter().any(|a| a == "--fewer-bases") { &all_bases[..4] } else { &all_bases[..] };
     let cwds = ["c1", "c1/c2/c3"];
     let mut unit = 0usize;
     for cwd_rel in cwds {
@@ -61,7 +63,7 @@ pub fn run(args: &[String]) {
         std::fs::create_dir_all(&cwd).unwrap();
         std::env::set_current_dir(&cwd).unwrap();
         let cwd_s = cwd.to_string_lossy().into_owned();
-        for base in bases {
+        for base in bases.iter().copied() {
             // absolute, normalised location of every path (None = climbs above the root)
             let full: Vec<String> = paths.iter().map(|p| join(base, p)).collect();
             let abs: Vec<Option<String>> = full
